@@ -349,8 +349,8 @@ class Array:
         For floating point types using a value of float('nan') will count the number of elements that are NaN.
 
         """
-        # Only numeric values can be NaN (math.isnan raises TypeError for str, bytes and Bits values).
-        if isinstance(value, (int, float)) and math.isnan(value):
+        # Only floats can be NaN (math.isnan raises TypeError for str, bytes and Bits values, and OverflowError for very large ints).
+        if isinstance(value, float) and math.isnan(value):
             return sum(math.isnan(i) for i in self)
         else:
             return sum(i == value for i in self)
